@@ -15,10 +15,10 @@ import (
 
 func init() {
 	register(&Rule{ID: "R11", Title: "subscribe-before-trigger: a watcher's subscription is made synchronously before the instance it watches is started", Min: 4, Run: ruleR11})
-	register(&Rule{ID: "R12", Title: "cease-after-wait: CeaseFlowTrace only after the start events were observed and the flow wait group drained; completion lock taken before go, released on all exits", Min: 8, Run: ruleR12})
-	register(&Rule{ID: "R13", Title: "freeze-before-use: the element->node mapping is only written while construction-locked and is finalized before it is published", Min: 38, Run: ruleR13})
-	register(&Rule{ID: "R36", Title: "node-kind-agreement: process and sub-process construct and register the same node kinds", Min: 36, Run: ruleR36})
-	register(&Rule{ID: "R37", Title: "single-broadcaster: one goroutine owns the subscriber list and delivers every trace to every subscriber in order, without dropping", Min: 6, Run: ruleR37})
+	register(&Rule{ID: "R12", Title: "cease-after-wait: CeaseFlowTrace only after the start events were observed and the flow wait group drained; completion lock taken before go, released on all exits", Min: 6, Run: ruleR12})
+	register(&Rule{ID: "R13", Title: "freeze-before-use: the element->node mapping is only written while construction-locked and is finalized before it is published", Min: 28, Run: ruleR13})
+	register(&Rule{ID: "R36", Title: "node-kind-agreement: process and sub-process construct and register the same node kinds", Min: 30, Run: ruleR36})
+	register(&Rule{ID: "R37", Title: "single-broadcaster: one goroutine owns the subscriber list and delivers every trace to every subscriber in order, without dropping", Min: 5, Run: ruleR37})
 }
 
 // ---- R11 ----
@@ -125,42 +125,87 @@ func ruleR11(c *Ctx) {
 
 // ---- R12 ----
 
+// goroutineTree: the functions that run synchronously in the goroutine rooted at R: R, the
+// same-package functions it calls statically (not through interfaces), literals it runs
+// synchronously (sync.Once.Do, immediately invoked, deferred), up to a small depth.
+func goroutineTree(p *Prog, R *FuncInfo) map[*FuncInfo]bool {
+	tree := map[*FuncInfo]bool{}
+	var add func(f *FuncInfo, d int)
+	add = func(f *FuncInfo, d int) {
+		if f == nil || tree[f] || d > 4 {
+			return
+		}
+		tree[f] = true
+		in := info(f)
+		inspectNoLit(f.Body, func(m ast.Node) bool {
+			if _, isGo := m.(*ast.GoStmt); isGo {
+				return false
+			}
+			switch x := m.(type) {
+			case *ast.CallExpr:
+				if lf := syncLitOfCall(p, in, x); lf != nil {
+					add(lf, d+1)
+				}
+				if fn := callee(in, x); fn != nil {
+					if _, isIface := recvUnderlyingInterface(fn); !isIface {
+						if cf := p.byObj[fn]; cf != nil && cf.Pkg == R.Pkg {
+							add(cf, d+1)
+						}
+					}
+				}
+			case *ast.DeferStmt:
+				if lit, ok := unparen(x.Call.Fun).(*ast.FuncLit); ok {
+					add(p.byLit[lit], d+1)
+				}
+			}
+			return true
+		})
+	}
+	add(R, 0)
+	return tree
+}
+
 func ruleR12(c *Ctx) {
 	p := c.P
 	ce := chanEngine(p)
 	n := 0
-	for _, f := range p.Funcs {
-		if f.Lit == nil || shortPkg(f.Pkg.PkgPath) != "bpmn" {
+	seenRoot := map[*FuncInfo]bool{}
+	for _, l := range ce.Launches() {
+		R := l.Root
+		if R == nil || seenRoot[R] || R.Pkg.PkgPath != pathBpmn {
 			continue
 		}
-		in := info(f)
-		g := p.Graph(f)
-		var ceasePts []Point
-		for _, pt := range g.AllPoints() {
-			if _, ok := nodeSendsTrace(in, pt.Node(), "CeaseFlowTrace"); ok {
-				ceasePts = append(ceasePts, pt)
+		seenRoot[R] = true
+		tree := goroutineTree(p, R)
+		type site struct {
+			f  *FuncInfo
+			pt Point
+		}
+		var sends []site
+		for f := range tree {
+			in := info(f)
+			g := p.Graph(f)
+			for _, pt := range g.AllPoints() {
+				if _, ok := nodeSendsTrace(in, pt.Node(), "CeaseFlowTrace"); ok {
+					sends = append(sends, site{f, pt})
+				}
 			}
 		}
-		if len(ceasePts) == 0 {
+		if len(sends) == 0 {
 			continue
 		}
 		n++
-		outer := f.Parent
+		sort.Slice(sends, func(i, j int) bool { return sends[i].pt.Node().Pos() < sends[j].pt.Node().Pos() })
 		// (1) exactly one send site, not in a loop
-		one := len(ceasePts) == 1 && innermostLoop(p, ceasePts[0].Node()) == nil
-		c.Check(one, f, ceasePts[0].Node(), "single Send(CeaseFlowTrace)", "a completion monitor sends CeaseFlowTrace at exactly one site outside any loop (the trace appears once)", fmt.Sprintf("%d send sites", len(ceasePts)))
-		cp := ceasePts[0]
-		// (2) dominated by a receive from a closed-only channel whose close follows WaitGroup.Wait
+		one := len(sends) == 1 && innermostLoop(p, sends[0].pt.Node()) == nil
+		c.Check(one, R, sends[0].pt.Node(), "single Send(CeaseFlowTrace)", "a completion monitor sends CeaseFlowTrace at exactly one site outside any loop (the trace appears once)", fmt.Sprintf("%d send sites in the monitor goroutine's call tree", len(sends)))
+		sf, cp := sends[0].f, sends[0].pt
+		// (2) in the clause that observed a channel closed only after WaitGroup.Wait
 		okWait, witWait := false, "no receive from a wait-completion channel dominates the send"
 		for _, op := range ce.Ops {
-			if op.Func != f || op.Kind != OpRecv || op.Ref.Var == nil || !ce.ClosedOnly(op.Ref.Var) {
+			if op.Func != sf || op.Kind != OpRecv || op.Ref.Var == nil || !ce.ClosedOnly(op.Ref.Var) || op.Clause == nil {
 				continue
 			}
-			commPt, ok := g.PointOf(op.Node)
-			if !ok || !g.Dominates(commPt, cp) || op.Clause == nil {
-				continue
-			}
-			// the send must be inside that clause's body
 			if !regionOfStmts(op.Clause.Clause.Body).Contains(cp.Node()) {
 				continue
 			}
@@ -178,92 +223,142 @@ func ruleR12(c *Ctx) {
 				}
 			}
 		}
-		c.Check(okWait, f, cp.Node(), "CeaseFlowTrace after wait-group drain", "CeaseFlowTrace is sent only in the branch that observed the channel closed after flowWaitGroup.Wait() returned (no token remains)", witWait)
-		// (3) dominated by the exit of the loop that observes start events from the subscription
-		okLoop, witLoop := false, "no preceding loop over the subscription"
-		inspectNoLit(f.Body, func(m ast.Node) bool {
-			fs, ok := m.(*ast.ForStmt)
-			if !ok || fs.Cond != nil {
-				return true
-			}
-			recvsTraces := false
-			for _, op := range ce.Ops {
-				if op.Func == f && op.Kind == OpRecv && regionOf(fs.Body).Contains(op.Node) {
-					if e, ok := chanElem(op.Type); ok && isITrace(e) {
-						recvsTraces = true
-					}
-				}
-			}
-			if !recvsTraces || fs.End() > cp.Node().Pos() {
-				return true
-			}
-			// the loop's break must be guarded by a comparison of two len() values
-			guarded := false
-			inspectNoLit(fs.Body, func(y ast.Node) bool {
-				ifs, ok := y.(*ast.IfStmt)
-				if !ok {
+		c.Check(okWait, sf, cp.Node(), "CeaseFlowTrace after wait-group drain", "CeaseFlowTrace is sent only in the branch that observed the channel closed after flowWaitGroup.Wait() returned (no token remains)", witWait)
+		// (3) preceded by the loop that counts start events from the subscription
+		countingLoop := func(f *FuncInfo) *ast.ForStmt {
+			fin := info(f)
+			var res *ast.ForStmt
+			inspectNoLit(f.Body, func(m ast.Node) bool {
+				fs, ok := m.(*ast.ForStmt)
+				if !ok || fs.Cond != nil {
 					return true
 				}
-				hasBreak := false
-				for _, st := range ifs.Body.List {
-					if b, ok := st.(*ast.BranchStmt); ok && b.Tok == token.BREAK {
-						hasBreak = true
+				recvsTraces := false
+				for _, op := range ce.Ops {
+					if op.Func == f && op.Kind == OpRecv && regionOf(fs.Body).Contains(op.Node) {
+						if e, ok := chanElem(op.Type); ok && isITrace(e) {
+							recvsTraces = true
+						}
 					}
 				}
-				if be, ok := unparen(ifs.Cond).(*ast.BinaryExpr); ok && hasBreak && be.Op == token.EQL && isLenCall(in, be.X) && isLenCall(in, be.Y) {
-					guarded = true
+				if !recvsTraces {
+					return true
 				}
+				inspectNoLit(fs.Body, func(y ast.Node) bool {
+					ifs, ok := y.(*ast.IfStmt)
+					if !ok {
+						return true
+					}
+					leaves := false
+					for _, st := range ifs.Body.List {
+						switch b := st.(type) {
+						case *ast.BranchStmt:
+							if b.Tok == token.BREAK {
+								leaves = true
+							}
+						case *ast.ReturnStmt:
+							leaves = true
+						}
+					}
+					if be, ok := unparen(ifs.Cond).(*ast.BinaryExpr); ok && leaves && be.Op == token.EQL && isLenCall(fin, be.X) && isLenCall(fin, be.Y) {
+						res = fs
+					}
+					return true
+				})
 				return true
 			})
-			// every other way out of the loop is a return
-			if guarded {
-				okLoop = true
-				witLoop = "preceded by the loop over the subscription that breaks only when len(observed start events) == len(declared start events); its other exits return"
+			return res
+		}
+		// in R: a node that is (or calls a tree function containing) the counting loop must dominate a
+		// node that is (or calls the tree function containing) the send; if both live in one helper, there
+		okLoop, witLoop := false, "no counting loop over the subscription precedes the send"
+		for f := range tree {
+			fg := p.Graph(f)
+			fin := info(f)
+			var loopPts, sendPts []Point
+			if fs := countingLoop(f); fs != nil {
+				if pt, ok := fg.PointOf(fs); ok {
+					// the loop's exit must dominate: use the first node after the loop = any node dominated... approximate by loop entry
+					loopPts = append(loopPts, pt)
+				}
 			}
-			return true
-		})
-		c.Check(okLoop, f, cp.Node(), "CeaseFlowTrace after all start events observed", "the cease-flow send is preceded by the loop that waits until as many start events were observed as are declared", witLoop)
-		// (4) completion lock: Lock in the synchronous constructor part, deferred Unlock in the goroutine
-		if outer != nil {
-			oin := info(outer)
-			var lockX ast.Expr
-			for _, st := range outer.Body.List {
-				if es, ok := st.(*ast.ExprStmt); ok {
-					if call, ok := es.X.(*ast.CallExpr); ok && (isSyncMethod(oin, call, "RWMutex", "Lock") || isSyncMethod(oin, call, "Mutex", "Lock")) {
+			if f == sf {
+				sendPts = append(sendPts, cp)
+			}
+			for _, pt := range fg.AllPoints() {
+				for _, call := range callsIn(pt.Node()) {
+					cf := p.byObj[callee(fin, call)]
+					if cf == nil || !tree[cf] || cf == f {
+						continue
+					}
+					if countingLoop(cf) != nil {
+						loopPts = append(loopPts, pt)
+					}
+					if cf == sf {
+						sendPts = append(sendPts, pt)
+					}
+				}
+			}
+			for _, a := range loopPts {
+				for _, b := range sendPts {
+					if a != b && fg.Dominates(a, b) {
+						okLoop = true
+						witLoop = "the loop that breaks only when len(observed start events) == len(declared start events) (at/under line " + fmt.Sprint(fg.Lines([]Point{a})) + " of " + f.QName() + ") dominates the cease-flow send"
+					}
+				}
+			}
+		}
+		c.Check(okLoop, sf, cp.Node(), "CeaseFlowTrace after all start events observed", "the cease-flow send is preceded by the loop that waits until as many start events were observed as are declared", witLoop)
+		// (4) completion lock: taken synchronously before the goroutine exists, released on all exits of the root
+		holder := l.Via
+		if holder == nil {
+			holder = l.Site.Func
+		}
+		hin := info(holder)
+		var lockX ast.Expr
+		hg := p.Graph(holder)
+		gpt, haveGo := hg.PointOf(l.Site.Stmt)
+		for _, pt := range hg.AllPoints() {
+			if _, isGo := pt.Node().(*ast.GoStmt); isGo {
+				continue
+			}
+			for _, call := range callsIn(pt.Node()) {
+				if isSyncMethod(hin, call, "RWMutex", "Lock") || isSyncMethod(hin, call, "Mutex", "Lock") {
+					if holder == l.Via || (haveGo && hg.Dominates(pt, gpt)) {
 						lockX = unparen(call.Fun).(*ast.SelectorExpr).X
 					}
 				}
 			}
-			c.Check(lockX != nil, outer, outer.Body, "completion lock taken before go", "the completion lock is acquired in the synchronous part of the monitor constructor (so WaitUntilComplete cannot slip in before the monitor owns it)", fmt.Sprintf("top-level Lock in %s: %v", outer.QName(), lockX != nil))
-			if lockX != nil {
-				pred := func(call *ast.CallExpr) bool {
-					if !(isSyncMethod(in, call, "RWMutex", "Unlock") || isSyncMethod(in, call, "Mutex", "Unlock")) {
-						return false
-					}
-					return sameRef(in, unparen(call.Fun).(*ast.SelectorExpr).X, lockX)
+		}
+		c.Check(lockX != nil, holder, holder.Body, "completion lock taken before go", "the completion lock is acquired synchronously before the monitor goroutine exists (so WaitUntilComplete cannot slip in before the monitor owns it)", fmt.Sprintf("Lock in %s before the goroutine starts: %v", holder.QName(), lockX != nil))
+		if lockX != nil {
+			lf := fieldOf(hin, lockX)
+			rin := info(R)
+			pred := func(call *ast.CallExpr) bool {
+				if !(isSyncMethod(rin, call, "RWMutex", "Unlock") || isSyncMethod(rin, call, "Mutex", "Unlock")) {
+					return false
 				}
-				ok, wit := exactlyOnceOnAllExits(p, f, g.Entry(), true, pred)
-				c.Check(ok, f, f.Body, "completion lock released on all exits", "the monitor goroutine releases the completion lock exactly once on every exit", wit)
-				// (5) some WaitUntilComplete acquires the same lock field
-				lf := fieldOf(oin, lockX)
-				found := false
-				for _, h := range p.Funcs {
-					if h.Root().Obj == nil || h.Root().Obj.Name() != "WaitUntilComplete" {
-						continue
-					}
-					hin := info(h)
-					inspectNoLit(h.Body, func(y ast.Node) bool {
-						if call, ok := y.(*ast.CallExpr); ok && (isSyncMethod(hin, call, "RWMutex", "Lock") || isSyncMethod(hin, call, "RWMutex", "RLock")) {
-							if fieldOf(hin, unparen(call.Fun).(*ast.SelectorExpr).X) == lf && lf != nil {
-								found = true
-							}
+				return fieldOf(rin, unparen(call.Fun).(*ast.SelectorExpr).X) == lf && lf != nil
+			}
+			ok, wit := exactlyOnceOnAllExits(p, R, p.Graph(R).Entry(), true, pred)
+			c.Check(ok, R, R.Body, "completion lock released on all exits", "the monitor goroutine releases the completion lock exactly once on every exit", wit)
+			found := false
+			for _, h := range p.Funcs {
+				if h.Root().Obj == nil || h.Root().Obj.Name() != "WaitUntilComplete" {
+					continue
+				}
+				h2 := info(h)
+				inspectNoLit(h.Body, func(y ast.Node) bool {
+					if call, ok := y.(*ast.CallExpr); ok && (isSyncMethod(h2, call, "RWMutex", "Lock") || isSyncMethod(h2, call, "RWMutex", "RLock")) {
+						if fieldOf(h2, unparen(call.Fun).(*ast.SelectorExpr).X) == lf && lf != nil {
+							found = true
 						}
-						return true
-					})
-				}
-				if lf != nil && namedOf(oin.TypeOf(rootExprOfSel(lockX))) != nil && namedOf(oin.TypeOf(rootExprOfSel(lockX))).Obj().Name() == "Process" {
-					c.Check(found, outer, outer.Body, "WaitUntilComplete observes the completion lock", "WaitUntilComplete learns completion by acquiring the lock the monitor holds", fmt.Sprintf("a WaitUntilComplete body locks %s: %v", lf.Name(), found))
-				}
+					}
+					return true
+				})
+			}
+			if n0 := namedOf(hin.TypeOf(rootExprOfSel(lockX))); n0 != nil && n0.Obj().Name() == "Process" {
+				c.Check(found, holder, holder.Body, "WaitUntilComplete observes the completion lock", "WaitUntilComplete learns completion by acquiring the lock the monitor holds", fmt.Sprintf("a WaitUntilComplete body locks %s: %v", lf.Name(), found))
 			}
 		}
 	}
@@ -557,6 +652,7 @@ func ruleR37(c *Ctx) {
 		c.Missing("tracer anchors", "tracer.run / Send / Unsubscribe / relay goroutine not found")
 		return
 	}
+	runTree := goroutineTree(p, runF)
 	// (1) subscribers touched only by run (and the constructor literal)
 	for _, f := range p.Funcs {
 		if shortPkg(f.Pkg.PkgPath) != "pkg/tracing" {
@@ -573,11 +669,24 @@ func ruleR37(c *Ctx) {
 			return true
 		})
 		if touched {
-			c.Check(f == runF, f, at, "access to tracer.subscribers", "the subscriber list is confined to the broadcaster goroutine", "accessed in "+f.QName())
+			// helpers count when they are only ever called from the broadcaster's own call tree
+			okConf := f == runF
+			if !okConf && runTree[f] && f.Obj != nil {
+				okConf = true
+				for _, h := range p.Funcs {
+					hin := info(h)
+					inspectNoLit(h.Body, func(z ast.Node) bool {
+						if call, ok := z.(*ast.CallExpr); ok && callee(hin, call) == f.Obj && !runTree[h] {
+							okConf = false
+						}
+						return true
+					})
+				}
+			}
+			c.Check(okConf, f, at, "access to tracer.subscribers", "the subscriber list is confined to the broadcaster goroutine (its loop and helpers only it calls)", "accessed in "+f.QName())
 		}
 	}
 	// (2) sends into subscriber channels: only in run, inside a range over t.subscribers, plain (no go, no select)
-	rin := info(runF)
 	nsend := 0
 	for _, op := range ce.Ops {
 		if op.Kind != OpSend {
@@ -597,10 +706,11 @@ func ruleR37(c *Ctx) {
 			continue
 		}
 		nsend++
-		okShape := op.Func == runF && op.Select == nil
+		okShape := runTree[op.Func] && op.Select == nil
 		inRange := false
+		oin := info(op.Func)
 		for cur := p.Parent(op.Node); cur != nil; cur = p.Parent(cur) {
-			if rs, ok := cur.(*ast.RangeStmt); ok && fieldName(rin, rs.X) == "tracer.subscribers" {
+			if rs, ok := cur.(*ast.RangeStmt); ok && fieldName(oin, rs.X) == "tracer.subscribers" {
 				inRange = true
 				// no break/continue/return that skips subscribers
 				inspectNoLit(rs.Body, func(y ast.Node) bool {
@@ -615,7 +725,7 @@ func ruleR37(c *Ctx) {
 				})
 			}
 		}
-		c.Check(okShape && inRange, op.Func, op.Node, "delivery to subscribers", "each trace is delivered by a plain send to every subscriber, sequentially inside one range over the list, with no skip, drop or goroutine", fmt.Sprintf("in run=%v, in range over subscribers=%v, unconditional plain send=%v", op.Func == runF, inRange, okShape))
+		c.Check(okShape && inRange, op.Func, op.Node, "delivery to subscribers", "each trace is delivered by a plain send to every subscriber, sequentially inside one range over the list, with no skip, drop or goroutine", fmt.Sprintf("in the broadcaster's call tree=%v, in range over subscribers=%v, unconditional plain send=%v", runTree[op.Func], inRange, okShape))
 	}
 	if nsend != 1 {
 		c.Bad(runF, runF.Body, "exactly one delivery site", "there is exactly one place that delivers traces to subscribers", fmt.Sprintf("%d delivery sites", nsend))
